@@ -197,7 +197,7 @@ def run(tier, seed, report_as=None):
     shared, own = corpus_programs()
     check_batch(chk, shared, "corpus", "corpus", True)
     check_batch(chk, own, "corpm", "corpus-C01M", False)
-    keep, keepp = [], []
+    keep, keepp, keepf = [], [], []
     for tag, mode, collide, only, provide, share, must in BATCHES:
         progs = list(gen_programs(chk.rng, int(n * share), mode, collide, provide, only))
         key = "%s/%s%s%s" % ("collide" if collide else "distinct", mode, "+only" if (only and mode == "django" and not collide) else "",
@@ -207,6 +207,8 @@ def run(tier, seed, report_as=None):
             keep.extend(progs[: n // 2])
         if tag in ("isop", "djap"):
             keepp.extend(progs)
+        if tag == "isod":
+            keepf.extend(progs)
     nwf = check_fragment(chk, keep, "frag", "isolated", "wf_prog")
     nwf += check_fragment(chk, keep, "frdj", "django", "wf_prog_django", mode="django")
     nwf += check_fragment(chk, keepp, "frpr", "isolated+provide", "wf_prog_prov", keep=("provide",))
@@ -214,6 +216,14 @@ def run(tier, seed, report_as=None):
     pt = sorted(keep, key=lambda p: "slot-in-fill" not in G.features(p))[: n // 2]
     chk.dist["fragment/isolated+passthrough:with-slot-in-fill"] += sum(1 for p in pt if "slot-in-fill" in G.features(p))
     nwf += check_fragment(chk, pt, "frpt", "isolated+passthrough", "wf_prog_pass", keep=("passthrough",))
+    # loops at template level: programs of the isolated batch that keep a loop after the rewriting first (<= 90)
+    def _has_loop(p):
+        import c01m_util as U
+        q = U.fragmentize(p, "isolated", ("for",))
+        return any(t[0] == "for" for t in G.flatten(q["page"]) + [x for _, cd in q["lib"] for x in G.flatten(cd["tpl"])])
+    fo = sorted(keepf, key=lambda p: not _has_loop(p))[: min(90, n // 2)]
+    chk.dist["fragment/isolated+for:with-a-loop"] += sum(1 for p in fo if _has_loop(p))
+    nwf += check_fragment(chk, fo, "frfo", "isolated+for", "wf_prog_for", keep=("for",))
     chk.assumptions = [
         "programs are drawn from the calculus of coq/Core/Syntax.v by harness/genprog.py (shared with C01/C03/C05); templates emit text "
         "without HTML elements; <!-- _RENDERED --> markers are stripped; expression evaluation of Django's engine (variables, dot lookup, "
@@ -228,11 +238,11 @@ def run(tier, seed, report_as=None):
     return chk.finish(
         rule="genprog programs, %d per batch, small ones first: distinct names isolated / django / django with `only`; colliding names "
              "(collide=0.35) isolated / django; provide/inject in every second program, plus two provide-heavy half batches; plus C01's corpus, C01M's witnesses, and %d programs "
-             "rewritten into the fragments of the refinement theorems (wf_prog / wf_prog_django / wf_prog_prov / wf_prog_pass true). implementation-vs-M must agree in EVERY batch; M-vs-S must "
+             "rewritten into the fragments of the refinement theorems (wf_prog / wf_prog_django / wf_prog_prov / wf_prog_pass / wf_prog_for true). implementation-vs-M must agree in EVERY batch; M-vs-S must "
              "agree in the distinct-name isolated, django (no `only`) and fragment batches and is counted elsewhere. Non-trivial = has a fill, "
              "a slot and a nested component. Distinct = distinct program text." % (n, nwf),
         explanation="theorems of Props/C01M.v re-checked (ctx_restored for all programs and both modes; component_context_cache privacy; M = S "
-                    "for the isolated, django, isolated+provide and isolated+pass-through fragments, no bounds); M evaluated by vm_compute inside Coq on every program and compared with the "
+                    "for the isolated, django, isolated+provide, isolated+pass-through and isolated+for fragments, no bounds); M evaluated by vm_compute inside Coq on every program and compared with the "
                     "implementation's output and with S; wf p -> M p = S p also evaluated as a test on the fragment batches.",
         extra_trusted=["modelled, not verified: Django's template engine for text/variables/if/for/with; Python list insert/pop semantics "
                        "(Core/CtxStack.v py_insertZ/py_popZ); deferred rendering abstracted to in-place rendering (C14 PostRender)",
